@@ -570,6 +570,107 @@ def c_roundtrip_rebound(a, b):
     s = s + [2]            # s is re-bound after the copy back: t keeps the shorter list
     return s, t
 
+# ---- round 5 forms
+def h_frame(t, build, flag=False):
+    if t.get('loc') is None:
+        x, y = t['c']
+        t['loc'] = build(x, y)
+    if flag:
+        ev(('dir', t['loc']))
+    return t['loc']
+
+def c_callback(a, b):
+    t = {'c': (a, b)}
+    def build_loc(x, y):
+        parts = (ev(('p', x)), y, a)
+        return '%s/%s/%s' % parts
+    return h_frame(t, build_loc, flag=b > 2)
+
+from collections import namedtuple
+Rec = namedtuple('Rec', ['box', 'outside', 'partial'])
+
+def h_rec(cov, a):
+    if not cov:
+        return Rec(box=None, outside=False, partial=False)
+    box = ev(('box', a))
+    if a > 3:
+        return Rec(box, outside=True, partial=False)
+    if a > 1:
+        return Rec(box, outside=False, partial=True)
+    return Rec(box, outside=False, partial=False)
+
+def c_record(a, b):
+    lim = h_rec(b, a)
+    if lim.outside:
+        return 'empty'
+    ev('load')
+    if lim.partial:
+        return ('masked', lim.box)
+    return 'plain'
+
+def h_checked(k, v, a):
+    if v == a:
+        return v
+    ok = not v or v == 1
+    if not ok:
+        raise Err(k)
+    return 'default'
+
+def c_dictcomp(a, b):
+    d = {'p': a, 'q': b}
+    return {k: h_checked(k, v, 2) for k, v in d.items()}
+
+def h_out(x, y, size):
+    xl = size[0]
+    yl = size[1]
+    return x < 0 or y < 0 or x >= xl or y >= yl
+
+def c_yield_g(a, b):
+    for y in (a - 1, a):
+        for x in (b - 1, b):
+            yield None if h_out(x, y, (3, 3)) else (x, y)
+
+def c_yield(a, b):
+    return list(c_yield_g(a, b))
+
+def c_dupe(a, b):
+    sizes = [(2, 2), (3, 3), (4, 4)]
+    bad = a > 3
+    if bad or h_out(a, b, sizes[a % 3]):
+        return None
+    return a, b
+
+_NO = object()
+
+def h_entry(x, off=_NO):
+    if off is _NO:
+        e = 'empty'
+    else:
+        e = ('off', off)
+    ev(('write', x, e))
+
+def c_with2(a, b):
+    with CM(), CM() as r:
+        h_entry(a)
+        h_entry(b, off=a)
+    return type(r).__name__
+
+def c_named_cond(a, b):
+    has = a is not None and a > 1
+    return has and ev(b) > 2
+
+def c_methval(a, b):
+    s = 'x%dy%d' % (a, b)
+    f = s.startswith
+    return f('x1')
+
+def h_join(*parts):
+    return '/'.join(str(p) for p in parts)
+
+def c_star(a, b):
+    parts = (ev(a), ev(b), 3)
+    return h_join(*parts)
+
 def c_meth(v, a):
     return K(v).caller_m(a)
 
@@ -589,6 +690,11 @@ def normalised_source():
         if qual.startswith(KNOWN_PREFIX):
             known.add('m.py:' + qual)
     changed, report = inline.normalise({'m.py': tree}, known=known, sources={'m.py': SRC})
+    # closures that the reference tree does not have, called once: written out at their call (as in Repo._normalise)
+    loc = inline.inline_local_closures({'m.py': changed['m.py']}, {'m.py': SRC}, set())
+    if loc:
+        changed['m.py'] = loc['m.py']
+        report.append(('inlined', 'local closure', '-', ''))
     return ast.unparse(changed['m.py']), report
 
 
@@ -629,6 +735,9 @@ def main():
         'c_alias': [(None, v) for v in vals],
         'c_copy': itertools.product(vals, vals), 'c_copy_later': itertools.product(vals, vals), 'c_copy_loop': itertools.product(vals, vals),
         'c_copy_swap': itertools.product(vals, vals), 'c_run': itertools.product(vals, vals), 'c_next': itertools.product(vals, vals), 'c_next_ret': itertools.product(vals, vals), 'c_roundtrip': itertools.product(vals, vals), 'c_roundtrip_rebound': itertools.product(vals, vals), 'c_run_swapped': itertools.product(vals, vals),
+        'c_callback': itertools.product(vals, vals), 'c_record': itertools.product(vals, vals), 'c_dictcomp': itertools.product(vals, vals),
+        'c_yield': itertools.product(vals, vals), 'c_dupe': itertools.product(vals, vals), 'c_with2': itertools.product(vals, vals),
+        'c_named_cond': itertools.product([None] + vals, vals), 'c_methval': itertools.product(vals, vals), 'c_star': itertools.product(vals, vals),
         'c_rng_swapped': itertools.product(vals, vals), 'c_closure': itertools.product(vals, vals), 'c_try_rest': [(v,) for v in vals], 'c_try_ret': [(v,) for v in vals], 'c_try_norets': [(v,) for v in vals], 'c_rng_self': itertools.product(vals, vals),
     }
     bad = 0
@@ -649,7 +758,7 @@ def main():
     # every form must actually have been exercised
     want = {'h_pred', 'h_expr', 'h_stmt', 'h_none', 'h_search', 'h_all', 'h_any', 'h_try', 'h_with', 'h_kw', 'h_default', 'h_nested', 'h_shadow',
             'K._m', 'K._set', 'K._reset_then', 'h_rng', 'h_closure', 'h_try_ret', 'h_try_norets', 'h_inout', 'h_mut', 'h_tmp', 'h_pure2',
-            'h_stmtpred', 'h_uses_t', 'h_none_or'}
+            'h_stmtpred', 'h_uses_t', 'h_none_or', 'h_frame', 'h_rec', 'h_checked', 'h_out', 'h_entry', 'local closure'}
     missing = want - set(inl)
     if missing:
         print('NOT EXERCISED: %s' % sorted(missing))
